@@ -956,7 +956,7 @@ func genC17(w *bufio.Writer, rng *hx.Rng, tier string) {
 		}
 	}
 	// --- C: random structured cases
-	n := 8000
+	n := 25000
 	if thorough {
 		n = 250000
 	}
